@@ -15,11 +15,13 @@ import (
 	"fmt"
 	"hash/fnv"
 	"os"
+	"runtime"
 	"runtime/debug"
 	"sort"
 	"strconv"
 	"strings"
 	"sync"
+	"sync/atomic"
 	"testing"
 	"time"
 
@@ -190,17 +192,46 @@ func vfHash(b []byte) string {
 }
 
 // vfSafe runs f and converts a panic of the code under test into a violation-like error.
+var vfDeadlineHit atomic.Bool
+
 func vfSafe(f func() *vfViolation) (v *vfViolation) {
-	defer func() {
-		if r := recover(); r != nil {
-			st := string(debug.Stack())
-			if len(st) > 2500 {
-				st = st[:2500]
+	guarded := func() (v *vfViolation) {
+		defer func() {
+			if r := recover(); r != nil {
+				st := string(debug.Stack())
+				if len(st) > 2500 {
+					st = st[:2500]
+				}
+				v = &vfViolation{Msg: fmt.Sprintf("panic: %v\n%s", r, st)}
 			}
-			v = &vfViolation{Msg: fmt.Sprintf("panic: %v\n%s", r, st)}
+		}()
+		return f()
+	}
+	// $VERIF_CASE_DEADLINE (seconds, set by the driver for the checks that drive the store / library
+	// goroutines): a case that does not come back at all - a search, Flush or Close that blocks for
+	// good - is a violation of every one of those properties, not a test time-out. The deadline is two
+	// orders of magnitude above what a case takes.
+	limit := vfEnvInt("VERIF_CASE_DEADLINE", 0)
+	if limit <= 0 {
+		return guarded()
+	}
+	if vfDeadlineHit.Load() {
+		// the hang is established; shrinking replays it many times, so those runs get a tenth of the time
+		if limit = limit / 10; limit < 20 {
+			limit = 20
 		}
-	}()
-	return f()
+	}
+	done := make(chan *vfViolation, 1)
+	go func() { done <- guarded() }()
+	select {
+	case v := <-done:
+		return v
+	case <-time.After(time.Duration(limit) * time.Second):
+		vfDeadlineHit.Store(true)
+		buf := make([]byte, 1<<15)
+		buf = buf[:runtime.Stack(buf, true)]
+		return &vfViolation{Msg: fmt.Sprintf("the case did not finish within %d s (a call into the library never returned?)\n%s", limit, buf)}
+	}
 }
 
 // vfLoadFindings returns the findings of one property from $VERIF_KF.
